@@ -47,6 +47,8 @@ pub enum OpResult {
     Solve(String),
     SolveAll(Vec<String>),
     Idle,
+    /// stop_query() called (after == 0) or armed (after > 0)
+    Stopped,
     Dropped,
     Skipped,
     /// the engine panicked (message)
@@ -78,6 +80,10 @@ pub struct OpRecord {
     /// call id of the timer this operation started (solve / solve_all), 0 if none
     pub call_id: u64,
     pub steps: u64,
+    /// stop_query() was called during this operation (by the user thread in a Stop op, or by
+    /// "another thread of the application" at an armed goal attempt of a search)
+    #[serde(default)]
+    pub user_stop: bool,
 }
 
 #[derive(Serialize, Deserialize, Clone, Debug, PartialEq, Eq)]
@@ -208,6 +214,11 @@ struct Sim {
     timers: Vec<TimerInfo>,
     faults: BTreeMap<String, u64>,
     thunks_in_op: Vec<u64>,
+    /// Stop { after: k } is armed: stop_query() at the k-th goal attempt of the next search
+    stop_armed: Option<u64>,
+    /// the current operation asks for answers (next_solution, solve, solve_all)
+    answer_op: bool,
+    user_stop_in_op: bool,
     stack_base: usize,
     run_started: Option<std::time::Instant>,
     guard_calls: u64,
@@ -239,6 +250,9 @@ impl Sim {
             timers: vec![],
             faults: BTreeMap::new(),
             thunks_in_op: vec![],
+            stop_armed: None,
+            answer_op: false,
+            user_stop_in_op: false,
             stack_base: 0,
             run_started: None,
             guard_calls: 0,
@@ -460,6 +474,20 @@ fn probe(site: u32, arg: u64) {
                 NoHalt(u64, u64),
                 Budget,
             }
+            // the stop button, pressed by another thread of the application at this instant
+            let press = SIM.with(|s| {
+                let mut s = s.borrow_mut();
+                match s.stop_armed {
+                    Some(k) if s.in_op && s.answer_op && task == 0 && s.steps + 1 - s.op_start_step >= k => {
+                        s.stop_armed = None;
+                        true
+                    }
+                    _ => false,
+                }
+            });
+            if press {
+                stop_query();
+            }
             let flag = vp::peek_flag();
             let act = SIM.with(|s| {
                 let mut s = s.borrow_mut();
@@ -509,6 +537,17 @@ fn probe(site: u32, arg: u64) {
                     SIM.with(|s| s.borrow_mut().sync_timers());
                 }
             }
+        }
+        vp::STOP_QUERY if arg == 0 => {
+            // stop_query() itself (a thunk passes its generation, which is never 0)
+            SIM.with(|s| {
+                let mut s = s.borrow_mut();
+                let kind = if s.answer_op { "user_stop_during_search" } else { "user_stop_between_operations" };
+                s.fault(kind);
+                s.user_stop_in_op = true;
+                s.event(task, "stop_query");
+            });
+            sched_point();
         }
         vp::STOP_QUERY => {
             // a timer thunk is about to set the flag; `task` is the timer thread
@@ -952,6 +991,8 @@ fn run_body(scn: &Scenario, opts: ExecOpts, baselines: &Result<Vec<Vec<Baseline>
         let steps_before = SIM.with(|s| {
             let mut s = s.borrow_mut();
             s.in_op = true;
+            s.answer_op = matches!(op, Op::Next { .. } | Op::Solve { .. } | Op::SolveAll { .. });
+            s.user_stop_in_op = false;
             s.op_start_step = s.steps;
             s.since_flag = 0;
             s.thunks_in_op.clear();
@@ -1053,6 +1094,17 @@ fn run_body(scn: &Scenario, opts: ExecOpts, baselines: &Result<Vec<Vec<Baseline>
                     }
                 }
             },
+            Op::Stop { after } => {
+                if *after == 0 {
+                    match catch_unwind(AssertUnwindSafe(stop_query)) {
+                        Ok(()) => OpResult::Stopped,
+                        Err(p) => OpResult::Panic(panic_message(&p)),
+                    }
+                } else {
+                    SIM.with(|s| s.borrow_mut().stop_armed = Some(*after));
+                    OpResult::Stopped
+                }
+            }
             Op::Idle { ms } => {
                 SIM.with(|s| s.borrow_mut().in_op = false);
                 idle(*ms);
@@ -1069,13 +1121,18 @@ fn run_body(scn: &Scenario, opts: ExecOpts, baselines: &Result<Vec<Vec<Baseline>
         let flag_on_return = vp::peek_flag();
         let output = take_output();
         let t_ret = simtime::now_us();
-        let (thunks, steps_after, call_id) = SIM.with(|s| {
+        let (thunks, steps_after, call_id, user_stop) = SIM.with(|s| {
             let mut s = s.borrow_mut();
             s.in_op = false;
             s.in_call = None;
+            if s.answer_op {
+                // a stop armed for this search that the search did not reach
+                s.stop_armed = None;
+            }
+            s.answer_op = false;
             s.sync_timers();
             let call_id = if s.call_seq > calls_before { s.call_seq } else { 0 };
-            (s.thunks_in_op.clone(), s.steps, call_id)
+            (s.thunks_in_op.clone(), s.steps, call_id, s.user_stop_in_op)
         });
         let stop = matches!(result, OpResult::Panic(_) | OpResult::NoHalt { .. } | OpResult::Budget | OpResult::Backstop);
         rec.ops.push(OpRecord {
@@ -1090,6 +1147,7 @@ fn run_body(scn: &Scenario, opts: ExecOpts, baselines: &Result<Vec<Vec<Baseline>
             thunks,
             call_id,
             steps: steps_after - steps_before,
+            user_stop,
         });
         if stop {
             break;
